@@ -275,13 +275,12 @@ __CPROVER_ensures(IMPLIES(VI_SDEC(source, SPEC_VARINT_MAX64).verdict == SPEC_VAR
     && (((s)->kind == DATA_KIND_OCTET && (s)->sink.octet == st_varint_octet_sink) \
         || ((s)->kind == DATA_KIND_CHUNK && (s)->sink.chunk == st_varint_chunk_sink)) \
     && __CPROVER_rw_ok(VI_SINK(s), sizeof(struct st_vsink)) && !__CPROVER_same_object((s), (s)->driver) \
-    && VI_SINK(s)->cnt <= ST_VSINK_CAP - SPEC_VARINT_MAX64 && VI_SINK(s)->max_accept >= 1)
+    && VI_SINK(s)->cnt <= ST_VSINK_CAP - SPEC_VARINT_MAX64)
 /* accepted: the sink holds exactly the image of v behind what it held before;
  * refused: the sink's code comes back and nothing was delivered */
 #define VI_SINK_POST(s, max, v, ret) \
   ((s)->kind == __CPROVER_old((s)->kind) && (s)->driver == __CPROVER_old((s)->driver) \
    && VI_SINK(s)->rc == __CPROVER_old(VI_SINK(s)->rc) \
-   && VI_SINK(s)->max_accept == __CPROVER_old(VI_SINK(s)->max_accept) \
    && IMPLIES(VI_SINK(s)->rc >= 0, \
       (ret) > 0 && (size_t)(ret) == spec_varint_len(v) && (size_t)(ret) <= (max) \
       && VI_SINK(s)->cnt == __CPROVER_old(VI_SINK(s)->cnt) + spec_varint_len(v) \
